@@ -105,6 +105,12 @@ EXPORT errno_t _wcscpy_s_chk(wchar_t *restrict dest, rsize_t dmax, const wchar_t
     CHK_SRCW_NULL_CLEAR("wcscpy_s", src)
 
     if (unlikely(dest == src)) {
+#ifdef SAFECLIB_STR_NULL_SLACK
+        /* nothing to copy, but the slack is nulled as for any other success */
+        const rsize_t len = wcsnlen_s(dest, dmax);
+        if (len < dmax)
+            memset(dest + len, 0, (dmax - len) * sizeof(wchar_t));
+#endif
         return RCNEGATE(EOK);
     }
 
